@@ -415,7 +415,7 @@ def mutate(argv, s, rng):
 
 
 def gen_dparse(tier, rng):
-    per = 12 if tier == "quick" else 120
+    per = 12 if tier == "quick" else 300
     out, stats = [], {"canonical": 0, "mutated": 0, "empty": 0}
     for s in DC.TOPS:
         out.append(case_line("dparse", s, "()"))
@@ -470,7 +470,7 @@ def dparse_project(r):
 
 # ---- dround
 def gen_dround(tier, rng):
-    per = 10 if tier == "quick" else 100
+    per = 10 if tier == "quick" else 250
     out = []
     for s in DC.TOPS:
         for _ in range(per):
@@ -545,27 +545,58 @@ def dround_nontrivial(case, impl):
 
 
 # ---- dupdate
+def subset_argv(a, names, rng):
+    """a random subset of the leading option tokens; a `--` tail is kept whole or dropped; a subcommand tail keeps
+    its name and is subset recursively (so an update can name only some fields of the current variant)"""
+    k = 0
+    while k < len(a) and a[k].startswith("-") and a[k] != "--":
+        k += 1
+    head, tail = a[:k], a[k:]
+    out = [t for t in head if rng.random() < 0.45]
+    if tail and rng.random() < 0.6:
+        if tail[0] in names:
+            out += [tail[0]] + subset_argv(tail[1:], names, rng)
+        else:
+            out += tail
+    return out
+
+
+SUB_NAMES = {e.cname(i) for e in DC.SUBENUMS for i in range(len(e.variants))}
+
+
+def has_sub(s):
+    return any(isinstance(n, Sub) for n in s.nodes)
+
+
+def same_variant(s, v0, v1, rng):
+    """copy the subcommand variant (not its fields) of v0 into v1 where possible: updates of the current variant"""
+    for k, n in enumerate(s.nodes):
+        if isinstance(n, Sub):
+            e0 = None if v0[1 + k] == "none" else (v0[1 + k][1] if n.opt else v0[1 + k])
+            if e0 is not None:
+                i = int(e0[1])
+                e = ["e", str(i)] + gen_nodes(n.enum.body(i), rng)
+                v1[1 + k] = ["some", e] if n.opt else e
+    return v1
+
+
 def gen_dupdate(tier, rng):
-    per = 8 if tier == "quick" else 80
+    per = 8 if tier == "quick" else 200
     out = []
     for s in DC.TOPS:
-        for _ in range(per):
+        for _ in range(per * (4 if has_sub(s) else 1)):
             v0 = gen_value(s, rng)
             argvs = []
             for _ in range(rng.choice([1, 1, 2, 3])):
-                a = print_value(s, gen_value(s, rng))
-                # a random subset of the leading option tokens; the tail (`--` + positionals, or the
-                # subcommand with its own line) is kept whole or dropped
-                if rng.random() < 0.8:
-                    k = 0
-                    while k < len(a) and a[k].startswith("-") and a[k] != "--":
-                        k += 1
-                    head, tail = a[:k], a[k:]
-                    a = [t for t in head if rng.random() < 0.45] + (tail if rng.random() < 0.5 else [])
+                v1 = gen_value(s, rng)
+                if has_sub(s) and rng.random() < 0.5:
+                    v1 = same_variant(s, v0, v1, rng)
+                a = print_value(s, v1)
+                if rng.random() < 0.85:
+                    a = subset_argv(a, SUB_NAMES, rng)
                 argvs.append(a)
             out.append(case_line("dupdate", s, sx_str(v0), *[argv_sx(a) for a in argvs]))
     return out
-
 
 
 def named(f, toks):
